@@ -221,6 +221,10 @@ fn handle(req: &Value) -> Value {
         }
         Ok(Err(diags)) => {
             let list: Vec<Value> = diags.diagnostics.iter().map(diag_json).collect();
+            if req["emit"].as_bool() == Some(false) {
+                out.insert("analyze".into(), json!({"err": list, "emit_skipped": true}));
+                return Value::Object(out);
+            }
             let emitted = guarded(|| {
                 let mut buf = termcolor::Buffer::no_color();
                 let r = diags.emit(&sources, &mut buf);
